@@ -536,6 +536,48 @@ def run_check(pid, tier="quick", seed=None, replay=None):
                     res.nontrivial.add(nt if isinstance(nt, str) else case)
                 if len(res.samples) < 6 and i % max(1, len(cases) // 3) == 0:
                     res.samples.append({"group": gname, "case": case[:400], "impl": il[:400], "model": (ml or "")[:400]})
+        # thorough tier: independent re-check of the compiled proofs, and a sanitizer build of the harness
+        if tier == "thorough" and not replay:
+            if coq["ok"]:
+                stem = chk.get("coq", "Properties_" + pid)
+                with Lock("coq"):
+                    rcq, oq, eq = sh(["coqchk", "-silent", "-o", "-Q", COQ, "Romea", "Romea." + stem], cwd=COQ, timeout=1500)
+                axs = []
+                seen_ax = False
+                for l in (oq + eq).splitlines():
+                    if "axioms:" in l.lower() or "Axioms:" in l:
+                        seen_ax = True
+                        continue
+                    if seen_ax and l.strip() and not l.startswith("*"):
+                        axs.append(l.strip())
+                coq["coqchk"] = {"rc": rcq, "axioms": axs[:60]}
+                if rcq != 0:
+                    res.tie_failures.append(("coqchk", "coqchk rejected %s: %s" % (stem, (oq + eq)[-800:])))
+            if chk.get("harness") and exe:
+                sflags = ["-std=c++17", "-O1", "-g", "-DNDEBUG", "-D" + GUARD, "-w", "-fsanitize=address,undefined",
+                          "-fno-sanitize-recover=all", "-I" + os.path.join(REPO, "include"), "-I/usr/include/eigen3",
+                          "-I" + os.path.join(VERIF, "harness")] + list(chk.get("cxxflags", ()))
+                sexe, slog = build_harness(chk["harness"], chk.get("repo_srcs", []), work, exe_name="harness_san", base_flags=sflags)
+                if sexe is None:
+                    res.tie_failures.append(("harness-build", "sanitizer build: " + slog[-1500:]))
+                else:
+                    nsan = 0
+                    for gname, cases in groups:
+                        sub = cases[:max(50, len(cases) // 10)]
+                        if not sub:
+                            continue
+                        rcs, so_, se_ = sh([sexe], inp="\n".join(sub) + "\n", timeout=chk.get("run_timeout", 900),
+                                           env=dict(os.environ, ASAN_OPTIONS="detect_leaks=0", UBSAN_OPTIONS="print_stacktrace=1"))
+                        nsan += len(sub)
+                        if rcs != 0:
+                            nout = len(so_.splitlines())
+                            bad_case = sub[min(nout, len(sub) - 1)]
+                            res.oracle_failures.append({"case": bad_case, "impl": se_[-2500:], "model": None, "key": "sanitizer",
+                                                        "msg": "ASan/UBSan build of the harness stopped (status %s) in group %s: %s"
+                                                               % (rcs, gname, se_.strip().splitlines()[0][:300] if se_.strip() else ""),
+                                                        "group": gname})
+                            break
+                    res.stats["sanitizer-cases"] = nsan
         if chk.get("extra_checks") and not replay:
             for item in chk["extra_checks"](work, tier, rng):
                 if item.get("kind") == "oracle":
@@ -609,6 +651,8 @@ def run_check(pid, tier="quick", seed=None, replay=None):
             "input_distribution": res.stats,
             "tie_failures": ["%s: %s" % (k, t[:300]) for k, t in res.tie_failures][:20],
         }
+        if coq.get("coqchk"):
+            cov["coqchk"] = coq["coqchk"]
         if chk.get("coverage_extra"):
             cov.update(chk["coverage_extra"]())
         evidence["coverage"] = cov
